@@ -2,6 +2,7 @@
    nested recursions as named functions) and the idempotence of apply. *)
 From PG Require Import Common.Tactics Model.Typing Proofs.TypingBasics.
 Local Open Scope Z_scope.
+Local Arguments Z.mul : simpl never.
 
 (* ------------------------------------------------------------------------------------------ *)
 (** * Named versions of the inner recursions *)
